@@ -172,20 +172,128 @@ def cb : P String := do
   let vd := vd.diffIf (!(closeQ tol (dot S bf (val e)) value)) "crossSumBestAtBelief value_differs"
   return vd.render
 
+/-! ### conditioning of a whole-run comparison
+
+  The model runs in exact arithmetic on the implementation's own inputs.  Every DECISION the modelled loop takes
+  (which projection is best at a belief, which action, skip-or-back-up, dominated-or-not, which entry a belief selects)
+  is a comparison of two rationals.  `Cond` records the smallest relative margin of all such comparisons and whether an
+  exact tie occurred where double arithmetic need not reproduce it.  If every margin is above 1e-9 (and ties are
+  reproducible: dyadic belief, bit-exact vectors) the implementation MUST take the same decisions, so a different
+  value function is a genuine divergence (`diff`); otherwise the case is `skip ill_conditioned`. -/
+
+structure Cond where
+  minM : Rat := 1
+  fragile : Bool := false
+  ties : Nat := 0
+
+def Cond.note (c : Cond) (robustTie : Bool) (a b : Rat) : Cond :=
+  if a == b then { c with ties := c.ties + 1, fragile := c.fragile || !robustTie }
+  else
+    let d := absQ (a - b)
+    let sc := maxQ 1 (maxQ (absQ a) (absQ b))
+    if d / sc < c.minM then { c with minM := d / sc } else c
+
+def isPow2 (n : Nat) : Bool := n != 0 && (n &&& (n - 1)) == 0
+def dyadicList (b : List Rat) : Bool := b.all (fun q => isPow2 q.den && q.den ≤ 4096)
+
+/-- index decision of `findBestAtPoint(b, l)`: the winner against every entry with a different vector -/
+def condBest (S : Nat) (c : Cond) (rt : Bool) (b : Nat → Rat) (l : VList) : Cond :=
+  match l with
+  | [] => c
+  | _ =>
+    let r := bestAtPoint S b l
+    let be := entryAt l r.1
+    l.foldl (fun c e => if e.values == be.values then c else c.note rt r.2 (dot S b (val e))) c
+
+/-- decisions of `crossSumBestAtBelief(b, projs[a], a)` for one action -/
+def condRow (m : Pomdp) (prev : VList) (c : Cond) (rt : Bool) (b : Nat → Rat) (a : Nat) : Cond :=
+  (List.range m.O).foldl (fun c o => condBest m.S c rt b (project m prev a o)) c
+
+/-- decisions of the all-actions `crossSumBestAtBelief(b, projs)` -/
+def condAll (m : Pomdp) (prev : VList) (c : Cond) (rt : Bool) (b : Nat → Rat) : Cond :=
+  let c := (List.range m.A).foldl (fun c a => condRow m prev c rt b a) c
+  let vals := (List.range m.A).map (fun a =>
+    dot m.S b (val (crossSumBestAtBeliefRow m.S b ((List.range m.O).map (fun o => project m prev a o)) a)))
+  let best := vals.foldl maxQ (vals.getD 0 0)
+  let firstBest := vals.findIdx (· == best)
+  (vals.zipIdx).foldl (fun c (v, a) => if a == firstBest then c else c.note rt best v) c
+
+/-- every `dominates(l, r)` test `extractDominated` could make on `l`: `D1 ∨ D2` with `D1 = ∀s, l−r ≥ −1e-6` and
+    `D2 = ∀s, l−r ≥ −min(l,r)·1e-11`.  The deciding quantity of `D1` is `min_s(l−r) + 1e-6`; `D2` only matters when `D1`
+    is false, and then it is decided by the same most negative component. -/
+def condDominates (S : Nat) (c : Cond) (rt : Bool) (l : VList) : Cond :=
+  (l.zipIdx).foldl (fun c (x, i) => (l.zipIdx).foldl (fun c (y, j) =>
+    if i == j then c else
+    let d1 := (List.range S).foldl (fun acc s => minQ acc (val x s - val y s)) (val x 0 - val y 0)
+    let c := c.note rt (d1 + Gen.equalToleranceSmall) 0
+    if decide (0 ≤ d1 + Gen.equalToleranceSmall) then c else
+    let d2 := (List.range S).foldl (fun acc s => minQ acc (val x s - val y s + minQ (val x s) (val y s) * Gen.equalToleranceGeneral))
+                (val x 0 - val y 0 + minQ (val x 0) (val y 0) * Gen.equalToleranceGeneral)
+    c.note rt d2 0) c) c
+
+/-- decisions of one PERSEUS sweep (mirrors `perseusLoop`), then of the final `extractDominated` -/
+def condPerseusStep (m : Pomdp) (rtOf : List Rat → Bool) (prev : VList) (beliefs : List (List Rat)) (c : Cond) : Cond :=
+  let r := beliefs.foldl (fun (acc : Cond × VList) bl =>
+      let b := bfun bl
+      let rt := rtOf bl
+      let (c, res) := acc
+      let c := if res.isEmpty then c else c.note rt (bestAtPoint m.S b res).2 (bestAtPoint m.S b prev).2
+      if !res.isEmpty && decide ((bestAtPoint m.S b prev).2 ≤ (bestAtPoint m.S b res).2) then (c, res)
+      else (condAll m prev c rt b,
+            res ++ [crossSumBestAtBeliefAll m.S b (fun a => (List.range m.O).map (fun o => project m prev a o)) m.A])) (c, [])
+  condDominates m.S r.1 (rtOf []) r.2
+
+/-- decisions of one PBVI timestep (mirrors `pbviStep`) -/
+def condPbviStep (m : Pomdp) (rtOf : List Rat → Bool) (prev : VList) (beliefs : List (List Rat)) (c : Cond) : Cond :=
+  let c := (List.range m.A).foldl (fun c a =>
+      let c := beliefs.foldl (fun c bl => condRow m prev c (rtOf bl) (bfun bl) a) c
+      condDominates m.S c (rtOf []) (beliefs.map (fun bl =>
+        crossSumBestAtBeliefRow m.S (bfun bl) ((List.range m.O).map (fun o => project m prev a o)) a))) c
+  let w := (List.range m.A).flatMap (pbviAction m (beliefs.map bfun) prev)
+  beliefs.foldl (fun c bl => condBest m.S c (rtOf bl) (bfun bl) w) c
+
+def condRun (step : VList → Cond → Cond) (mv : VF) : Cond :=
+  (mv.dropLast).foldl (fun c prev => step prev c) {}
+
+def illConditioned (c : Cond) : Bool := c.fragile || decide (c.minM ≤ tol)
+
+/-- exec clause on the implementation's own value function at the given beliefs (best entry of the last horizon) -/
+def execBad (m : Pomdp) (v : VF) (bs : List (List Rat)) : Option String :=
+  let H := v.length - 1
+  let top := vlist v H
+  if top.isEmpty then none else
+  (bs.take 6).findSome? (fun bl =>
+    let b := bfun bl
+    let id := (bestAtPoint m.S b top).1
+    let ex := execReturn (cutModel m) v H id b
+    let pr := dot m.S b (val (entryAt top id))
+    if closeQ tol ex pr then none else some s!"exec_return_mismatch exec={qstr ex} promised={qstr pr}")
+
+/-- verdict of a whole-run comparison -/
+def wholeRun (comp : String) (m : Pomdp) (bs : List (List Rat)) (v mv : VF) (cond : Cond) : String :=
+  let vd : Verdict := { tag := comp.toLower }
+  let bad := match v with | [] => none | v0 :: rest => firstBad m 1 v0 rest
+  let vd := match bad with
+    | some (hh, what, dev) => vd.failIf true s!"{comp} {what} horizon={hh} dev={qstr dev}"
+    | none => vd
+  let vd := if bad.isSome then vd else match execBad m v bs with
+    | some msg => vd.failIf true s!"{comp} {msg}"
+    | none => vd
+  let same := mv.length == v.length && (mv.zip v).all (fun p => sameVList p.1 p.2)
+  if !vd.fails.isEmpty then vd.render
+  else if same then ({ vd with tag := vd.tag ++ (if cond.ties > 0 then " ties" else "") }).render
+  else if illConditioned cond then s!"skip ill_conditioned {comp.toLower} minMargin={qstr cond.minM} ties={cond.ties}"
+  else (vd.diffIf true s!"{comp} model_differs sizes model={mv.map (·.length)} impl={v.map (·.length)} minMargin={qstr cond.minM} ties={cond.ties}").render
+
 /-- `perseus pomdp nB beliefs v0 h | vf` : the whole PERSEUS run against `perseusRun` -/
 def perseus : P String := do
   let m ← pomdpP; let bs ← P.list P.qs; let v0 ← P.q; let h ← P.nat; P.bar
   let v ← vfP; P.eof
   let mv := perseusRun m (bs.map bfun) v0 h
-  let vd : Verdict := { tag := "perseus" }
-  let bad := match v with | [] => none | v0 :: rest => firstBad m 1 v0 rest
-  let vd := match bad with
-    | some (hh, what, dev) => vd.failIf true s!"PERSEUS {what} horizon={hh} dev={qstr dev}"
-    | none => vd
-  let same := mv.length == v.length && (mv.zip v).all (fun p => sameVList p.1 p.2)
-  -- beliefs are normalised doubles: a comparison inside the sweep can flip by rounding; then the run is only checked, not compared
-  let vd := if same then vd else { vd with tag := "perseus rounded" }
-  return vd.render
+  let exact := match v with | [] => false | v0 :: rest => consistentFrom eqQ m v0 rest
+  let rtOf := fun (bl : List Rat) => exact && dyadicList bl
+  let cond := condRun (fun prev c => condPerseusStep m rtOf prev bs c) mv
+  return wholeRun "PERSEUS" m bs v mv cond
 
 /-- `wv pomdp w a entry | agenda tried` : Witness::addDefaultEntry followed by addVariations(row, entry) -/
 def wv : P String := do
@@ -202,22 +310,71 @@ def wv : P String := do
   let vd := vd.diffIf (!sameTried) s!"Witness::addVariations tried model={st.tried.length} impl={tried.length}"
   return vd.render
 
+/-- decisions of one LinearSupport timestep along the model's own trajectory (mirrors `lsScan` / `lsLoop`) -/
+def condLsScan (m : Pomdp) (prev : VList) (rtOf : List Rat → Bool) : List (List Rat) → LSState → Cond → Cond
+  | [], _, c => c
+  | v :: rest, st, c =>
+    if st.tried.contains v then condLsScan m prev rtOf rest st c else
+    let b := bfunL v
+    let rt := rtOf v
+    let c := condAll m prev c rt b
+    let diff := dot m.S b (val (backupAt m prev b)) - (bestAtPoint m.S b st.good).2
+    -- `diff > 0 && checkDifferentGeneral(diff, 0)`: the effective threshold is the small tolerance
+    let c := (c.note rt diff 0).note rt (absQ diff) Gen.equalToleranceSmall
+    condLsScan m prev rtOf rest (lsScan m prev 0 [v] st) c
+
+def condLsLoop (m : Pomdp) (prev : VList) (rtOf : List Rat → Bool) (verts2 : VEntry → VList → List (List Rat)) :
+    Nat → List (List Rat) → LSState → Cond → Cond
+  | 0, _, _, c => c
+  | f+1, vs, st, c =>
+    let c := condLsScan m prev rtOf vs st c
+    let st1 := lsScan m prev 0 vs st
+    match lsPopMax st1.agenda with
+    | none => c
+    | some (best, rest) =>
+      let c := rest.foldl (fun c it => (c.note false best.err it.err).note (rtOf it.belief) it.cur
+                  (dot m.S (bfunL it.belief) (val best.support))) c
+      let rest' := rest.filter (fun it => !(decide (it.cur < dot m.S (bfunL it.belief) (val best.support))))
+      condLsLoop m prev rtOf verts2 f (verts2 best.support st1.good) { st1 with agenda := rest', good := st1.good ++ [best.support] } c
+
+/-- `ls pomdp prev | level | walked tie lists` : one LinearSupport timestep against `lsStep`, the vertex lists being the
+    oracle answers logged by the harness -/
+def ls : P String := do
+  let m ← pomdpP; let prev ← vlistP; P.bar
+  let level ← vlistP; P.bar
+  let walked ← P.bool; let tie ← P.bool
+  let lists ← P.list (P.list P.qs); P.eof
+  let vd : Verdict := { tag := "ls" }
+  -- property clauses on the implementation's own level
+  let vd := match firstBad m 1 prev [level] with
+    | some (_, what, dev) => vd.failIf true s!"LinearSupport {what} dev={qstr dev}"
+    | none => vd
+  let st0 := lsCorners m prev (List.range m.S) ⟨[], [], [], []⟩
+  let n0 := st0.good.length
+  let verts1 := fun (_ : VList) => lists.getD 0 []
+  let verts2 := fun (_ : VEntry) (good : VList) => lists.getD (good.length - n0 + 1) []
+  let fuel := lists.length + 2
+  let mlevel := lsStep m 0 verts1 verts2 lsPopMax fuel prev
+  let exact := levelB eqQ m prev level
+  let rtOf := fun (bl : List Rat) => exact && dyadicList bl
+  let c0 : Cond := (List.range m.S).foldl (fun c s => condAll m prev c exact (fun i => if i = s then 1 else 0)) {}
+  let cond := condLsLoop m prev rtOf verts2 fuel (verts1 []) st0 c0
+  if !vd.fails.isEmpty then return vd.render
+  if sameVList mlevel level then return ({ vd with tag := if walked then "ls" else "ls unwalked" }).render
+  if tie then return "skip agenda_tie ls"
+  if !walked then return (vd.diffIf true s!"LinearSupport replay_diverged the library's level is not what its own loop, walked with its own kernels, produces (sizes walked-model={mlevel.length} impl={level.length})").render
+  if illConditioned cond then return s!"skip ill_conditioned ls minMargin={qstr cond.minM} ties={cond.ties}"
+  return (vd.diffIf true s!"LinearSupport model_differs sizes model={mlevel.length} impl={level.length} minMargin={qstr cond.minM}").render
+
 /-- `pbvi pomdp nB beliefs h | vf` : the whole PBVI run against `pbviRun` -/
 def pbvi : P String := do
-  let m ← pomdpP; let bs ← P.list P.qs; let h ← P.nat; P.bar
+  let m ← pomdpP; let bs ← P.list P.qs; let _h ← P.nat; P.bar
   let v ← vfP; P.eof
-  let mv := pbviRun m (bs.map bfun) h
-  let vd : Verdict := { tag := "pbvi" }
-  let bad := match v with | [] => none | v0 :: rest => firstBad m 1 v0 rest
-  let vd := match bad with
-    | some (hh, what, dev) => vd.failIf true s!"PBVI {what} horizon={hh} dev={qstr dev}"
-    | none => vd
-  -- the model is exact; the implementation is compared only where no rounding can have flipped a tie
+  let mv := pbviRun m (bs.map bfun) _h
   let exact := match v with | [] => false | v0 :: rest => consistentFrom eqQ m v0 rest
-  let same := mv.length == v.length && (mv.zip v).all (fun p => sameVList p.1 p.2)
-  let vd := if same then vd else if exact then vd.diffIf true s!"PBVI model_differs sizes model={mv.map (·.length)} impl={v.map (·.length)}"
-            else { vd with tag := "pbvi rounded" }
-  return vd.render
+  let rtOf := fun (bl : List Rat) => exact && dyadicList bl
+  let cond := condRun (fun prev c => condPbviStep m rtOf prev bs c) mv
+  return wholeRun "PBVI" m bs v mv cond
 
 def handle (toks : List String) : String :=
   let r := match toks with
@@ -230,6 +387,7 @@ def handle (toks : List String) : String :=
     | "pbvi" :: rest => P.run pbvi rest
     | "wv" :: rest => P.run wv rest
     | "perseus" :: rest => P.run perseus rest
+    | "ls" :: rest => P.run ls rest
     | _ => none
   r.getD "bad-op"
 
